@@ -55,7 +55,7 @@ _R9 = {
  "C03": " One pair in eight is a representation relative of the first operand (radix/xor folds of day and time fields, bitwise unit relatives, wrapped residues).",
  "C06": " One pair in eight is a representation relative of the first operand (radix/xor folds, bitwise unit relatives, wrapped residues), for DateTime and Time.",
  "C07": " Anniversary pairs at any distance (months, whole years, whole 400-year cycles, 2^j months) with structured times of day.",
- "C10": " Fields in random company: the offset value and the offset-free shifted value get the same pattern; format_rfc3339 fields under any offset.",
+ "C10": " Fields in random company: the offset value and the offset-free shifted value get the same pattern; format_rfc3339 fields under any offset. Pairs of Times: ==, cmp, the six *_since and duration_between read the same with the same offset on both sides, different offsets, or an offset on one side only.",
  "C11": " EVERY Unicode scalar value as a literal (exhaustive); a corpus of 62 common patterns for every type.",
  "C12": " The unambiguous part of the common-pattern corpus; the other type's symbol runs as literal delimiters.",
  "C13": " Rejection through parse_rfc3339 and FromStr; several fields out of range at once; sentinel grid (0000-00-00 … 9999-99-99); second 60 away from 23:59 UTC.",
